@@ -268,7 +268,7 @@ def _mail_charsets(kind: str) -> bytes:
 
 
 RTF1 = (r"{\rtf1\ansi\deff0{\fonttbl{\f0 Times;}}{\info{\title Sim Title}{\author Sim Author}{\subject Sim Subject}{\keywords k1, k2}}"
-        r"\pard Hello \b bold\b0  world\par Second \'80 euro \u-10179?\u-8704? emoji\par{\footnote This is a considerably longer footnote text {\i with a nested group that is itself fairly long and wordy enough to matter} and more plain words after it}\page Page two\par"
+        r"{\header\pard Annual report \emdash draft \bullet  page\par}{\footer\pard left \endash  right \lquote q\rquote\par}\pard Hello \b bold\b0  world\par Second \'80 euro \u-10179?\u-8704? emoji\par{\footnote This \emdash  is a considerably longer footnote text {\i with a nested group that is itself fairly long and wordy enough to matter} and more plain words after it}\page Page two\par"
         r"\trowd\cellx1000\cellx2000 a\cell b\cell\row\pard end}").encode()
 RTF2 = (r"{\rtf1\ansi\ansicpg1252 {\fonttbl\f0\froman\fcharset0 Times New Roman;\f1\fswiss\fcharset0 Arial;\f2\fmodern\fcharset0 Courier New;"
         r"\f3\fnil\fcharset2 Symbol;\f4\fswiss\fcharset0 Helvetica;{\f9\fswiss{\*\falt Arial}Liberation Sans;}}"
